@@ -26,6 +26,19 @@ type SpecEnv struct {
 	inOld       bool
 	errs        []string
 	typeArgs    map[string]types.Type // instantiation of the callee's type parameters at a call site
+	owner       *ssa.Function         // the function whose contract is being compiled (for renamed variables); nil: the frame's
+	renaming    bool
+}
+
+// ownerFn is the function whose contract the environment compiles.
+func (e *SpecEnv) ownerFn() *ssa.Function {
+	if e.owner != nil {
+		return e.owner
+	}
+	if e.fr != nil {
+		return e.fr.fn
+	}
+	return nil
 }
 
 func (e *SpecEnv) fail(x spec.Expr, format string, a ...any) Val {
@@ -405,6 +418,18 @@ func (e *SpecEnv) ident(x *spec.Ident) Val {
 	// package-level constants and variables
 	if obj := e.lookupObj(name); obj != nil {
 		return e.objVal(x, obj)
+	}
+	// a variable that was renamed since the contracts were locked (a pure rename, see World.LoadLocalsLock)
+	if !e.renaming {
+		if nn := e.vc.W.renamed(e.ownerFn(), name); nn != "" {
+			e.renaming = true
+			v := e.ident(&spec.Ident{Name: nn})
+			e.renaming = false
+			if len(e.errs) == 0 {
+				e.vc.Assumed["contract identifier "+name+" read as the renamed variable "+nn+" (same type and position as when the contracts were locked)"] = true
+			}
+			return v
+		}
 	}
 	return e.fail(x, "unknown identifier %s", name)
 }
@@ -1393,7 +1418,7 @@ func (e *SpecEnv) callPureVals(x *spec.Call, f *ssa.Function, args []Val) Val {
 				results[i].Term = vc.define("pr", vc.S.Sort(results[i].T), apps[i])
 				vc.pureTerm[apps[i]] = results[i].Term
 			}
-			env := &SpecEnv{vc: vc, fr: nil, st: e.state(), old: e.state(), names: map[string]Val{}, bound: map[string]Val{}, pkg: calleePkg(f)}
+			env := &SpecEnv{vc: vc, fr: nil, st: e.state(), old: e.state(), names: map[string]Val{}, bound: map[string]Val{}, pkg: calleePkg(f), owner: f}
 			if f.TypeParams().Len() > 0 {
 				if targs := inferTypeArgs(f, args); targs != nil {
 					env.typeArgs = map[string]types.Type{}
@@ -1493,6 +1518,11 @@ func (e *SpecEnv) compileLoc(x spec.Expr) (*Loc, types.Type) {
 		if e.fr != nil {
 			if loc, t, ok := e.fr.localLoc(x.Name); ok {
 				return loc, t
+			}
+			if nn := vc.W.renamed(e.ownerFn(), x.Name); nn != "" {
+				if loc, t, ok := e.fr.localLoc(nn); ok {
+					return loc, t
+				}
 			}
 		}
 		v := e.compile(x)
